@@ -130,8 +130,10 @@ Lemma providers_in W f m n pi : In pi (providers W f m n) <->
   (m <> QSelf /\ In pi (vf_imports f) /\
    provides (w_G W) (lookup_fn W m (qname m n)) (length (w_G W)) (vf_path f) pi = true).
 Proof.
-  destruct m; cbn [providers]; rewrite ?filter_In; split; try tauto; try (intros [_ H]; tauto);
-    try (intros H; split; [discriminate|exact H]). intros [H _]. congruence.
+  destruct m; cbn [providers].
+  - rewrite filter_In. split; [intros H; split; [discriminate|exact H]|intros [_ H]; exact H].
+  - split; [intros []|intros [H _]; congruence].
+  - rewrite filter_In. split; [intros H; split; [discriminate|exact H]|intros [_ H]; exact H].
 Qed.
 
 Definition cons_at (W : world) (f : vfile) (m : qmode) (n : name) : Prop :=
